@@ -215,6 +215,7 @@ def r_solve_program(ctx, only):
         for p0, r0 in role.items():
             env[p0] = vals[r0]
         it = IndexInterp(env, on_call=run.on_call)
+        it.home = (repo, root._module, "PEP")
         it.on_compare = run.on_compare
         return run, it
 
